@@ -90,6 +90,25 @@ pub fn rule_values(style: u8, a: u32, b: u32) -> ((RVal, RVal), (ValueRecordBuil
     ((e1, e2), (b1, b2))
 }
 
+pub /// Boundary-complete device delta sets: every single delta on and next to a format boundary
+/// (2-bit: -2..=1, 4-bit: -8..=7, 8-bit: -128..=127), mixes of a boundary value with small values,
+/// and size ranges of length 1, 8, 9 (2-bit word boundary), 4, 5 (4-bit), 2, 3 (8-bit).
+pub fn device_delta_sets() -> Vec<Vec<i8>> {
+    let mut v: Vec<Vec<i8>> = [0i8, 1, 2, -2, -3, 7, 8, -8, -9, 127, -128].iter().map(|d| vec![*d]).collect();
+    v.extend([
+        vec![1, 2], vec![-2, 2], vec![-2, 1], vec![2, 0, 0], vec![7, 8, -8], vec![8, 0], vec![-9, 7], vec![-8, 7], vec![127, -128], vec![0, 0, 0],
+        vec![1, -2, 1, -2, 1, -2, 1, -2],          // 2-bit, exactly one word
+        vec![1, -2, 1, -2, 1, -2, 1, -2, 1],       // 2-bit, nine values: second word
+        vec![0, 0, 0, 0, 0, 0, 0, 0, 2],           // a +2 in the ninth slot: 4-bit, three words
+        vec![7, -8, 7, -8],                        // 4-bit, exactly one word
+        vec![7, -8, 7, -8, 3],                     // 4-bit, five values
+        vec![0, 0, 0, 8],                          // a +8: 8-bit, two words
+        vec![127, -128, 100],                      // 8-bit, three values
+        vec![-3, 1, 0, 0, 0],
+    ]);
+    v
+}
+
 pub fn anchor_values(style: u8, x: i16, y: i16, salt: u32) -> (RAnchor, AnchorBuilder) {
     match (style, salt % 5) {
         (1, 0) | (1, 3) => (
